@@ -211,6 +211,7 @@ func runC10(c *Ctx, idx int) {
 	prof := fullProfile()
 	prof.Skipped, prof.MediaInText, prof.AttrNoise = true, true, idx%3 == 0
 	prof.NonASCII = idx%2 == 0 // text that a normaliser would rewrite (decomposed accents, soft hyphens, compatibility letters)
+	prof.H1Fallback = idx%4 >= 2 // the <title> of these pages is short: the title is taken from an <h1> that has markup to be left out
 	g := NewArtGen(r, prof)
 	src := g.Doc()
 	if idx%4 == 0 {
